@@ -72,6 +72,19 @@ type cache struct {
 	wg sync.WaitGroup
 	// fsTree contains big files stored directly on file-system.
 	fsTree *fstree.FSTree
+	// addrLocks serialize file and counter updates of the same address (striped
+	// by the first byte of the object ID), so that a put racing with the
+	// removal of the flushed copy can't leave a file without a counter entry
+	// or vice versa.
+	addrLocks [256]sync.Mutex
+}
+
+// lockAddr locks the stripe of the address and returns it for unlocking.
+func (c *cache) lockAddr(addr oid.Address) *sync.Mutex {
+	id := addr.Object()
+	l := &c.addrLocks[id[0]]
+	l.Lock()
+	return l
 }
 
 // wcStorageType is used for write-cache operations logging.
